@@ -1,12 +1,12 @@
 package main
 
 import (
-	"path/filepath"
-	"os/exec"
 	"encoding/json"
 	"flag"
 	"fmt"
 	"os"
+	"os/exec"
+	"path/filepath"
 	"sort"
 	"strings"
 
@@ -59,6 +59,19 @@ func main() {
 		}
 	case "calltree":
 		cmdCallTree(os.Args[2])
+	case "product":
+		// prints the generated lockstep products (what the relational obligations are generated from)
+		repo := "/repo"
+		if len(os.Args) > 2 {
+			repo = os.Args[2]
+		}
+		ov, probs := vc.GenProducts(repo)
+		for p, src := range ov {
+			fmt.Printf("// ---- %s\n%s\n", p, src)
+		}
+		for _, pp := range probs {
+			fmt.Printf("PROBLEM %s: %s\n", pp.Name, pp.Msg)
+		}
 	case "ssa":
 		P, err := vc.Load("/repo", "/verif/engine/externals")
 		if err != nil {
@@ -207,10 +220,11 @@ func cmdCallTree(root string) {
 }
 
 // cmdReplay re-runs a replay file produced by a failed check against the current /repo.
-//   *_replay_test.go : the Go test built from the solver's model is injected through its overlay file and run;
-//                      exit 1 if the violation reproduces, 0 if it does not.
-//   *.txt            : the obligation had no replayable input (no-failing-input-found): the file - failed
-//                      obligation, clause, solver output - is printed; exit 1 (the report stands, nothing to run).
+//
+//	*_replay_test.go : the Go test built from the solver's model is injected through its overlay file and run;
+//	                   exit 1 if the violation reproduces, 0 if it does not.
+//	*.txt            : the obligation had no replayable input (no-failing-input-found): the file - failed
+//	                   obligation, clause, solver output - is printed; exit 1 (the report stands, nothing to run).
 func cmdReplay(args []string) int {
 	if len(args) != 1 {
 		fmt.Println("usage: lvc replay <path printed in a VIOLATION line>")
